@@ -14,6 +14,7 @@
          C19_window_everywhere, C19_postInit_window, C19_window_reaches_drawing, C19_top_level_window_drawn
    (b) "the obstacle shapes drawn are exactly the occupancies the model reports …"
          C19_shapes_iff_prescribed, C19_only_occupancies_drawn, C19_scenario_shapes, C19_nothing_iff_no_occupancy,
+         C19_no_occupancy_at_begin_nothing_drawn (begin step in the gap before a late-starting trajectory prediction),
          C19_witness_inverted_window (why `time_begin ≤ time_end` is assumed), C19_frames_independent, C19_show_after_clearing (several frames / operation histories on one renderer)
    (c) "all lanelets (or exactly the selected ones) are drawn"        C19_id_filter (definitional)
    (d) "drawing … and rendering the figure completes without an exception"
@@ -334,6 +335,19 @@ theorem C19_nothing_iff_no_occupancy (f : Flags) (tb te : Int) (o : Obst) (hf : 
       intro t ht; exact h t ((h2 t).1 ht)
     simp [this]
 
+/-- Begin steps at which an obstacle that is not predicted set-based reports no occupancy — before its initial time
+    step, after the final step of its prediction, and **inside the gap between the initial state and a trajectory
+    prediction that starts later than the following step** (`Trajectory.initial_time_step > initial_state.time_step + 1`;
+    `Obst.WF` does not ask the occupancy steps to be contiguous) — draw nothing for that obstacle, whatever the rest of
+    the window and whatever the trajectory holds at other steps (in particular nothing taken from its end). -/
+theorem C19_no_occupancy_at_begin_nothing_drawn (f : Flags) (tb te : Int) (o : Obst) (hf : f.plainAt tb te)
+    (hwin : tb ≤ te) (hw : o.WF) (hu : o.uncInit = false) (hs : o.pred.isSet = false) (hno : o.occ.mem tb = false) :
+    drawObstacle f o = [] := by
+  apply (C19_nothing_iff_no_occupancy f tb te o hf hwin hw hu).2
+  rintro t ⟨hm, rfl | ⟨_, h, _, _⟩⟩
+  · rw [hno] at hm; cases hm
+  · rw [hs] at h; cases h
+
 def exInvObst : Obst where
   role := .dynamic
   initTs := 2
@@ -583,6 +597,13 @@ example : exSet.WF := by
   simp only [List.mem_cons, List.not_mem_nil, or_false] at h
   rcases h with rfl | rfl | rfl | rfl <;> simp [Pred.isNone, Pred.final]
 example : exStatic.WF := by simp [Obst.WF, exStatic, exSet]
+/-- a trajectory prediction that starts four steps after the initial state: initial step 2, states at 6..8 -/
+def exGapTraj : Obst := { exSet with pred := .traj 8, occ := ⟨false, [2, 6, 7, 8]⟩, stateAt := ⟨false, [6, 7, 8]⟩ }
+example : exGapTraj.WF := by
+  simp only [Obst.WF, exGapTraj, exSet, TSet.mem, Bool.false_or, List.contains_eq_mem, decide_eq_true_eq]
+  intro t h
+  simp only [List.mem_cons, List.not_mem_nil, or_false] at h
+  rcases h with rfl | rfl | rfl | rfl <;> simp [Pred.isNone, Pred.final]
 example : exSet.Readable ∧ exEnv.Readable := by simp [Obst.Readable, exSet, exEnv]
 example (tb te : Int) : (exFlags tb te).plainAt tb te :=
   ⟨by simp [exFlags, exDynFlags, DynFlags.plain], by simp [exFlags, PhFlags.plain], rfl, rfl, rfl, rfl, rfl, rfl⟩
@@ -594,6 +615,11 @@ example : Prescribed 3 5 exSet 4 ∧ ¬ Prescribed 3 5 exSet 5 ∧ ¬ Prescribed
   · rintro ⟨_, h | ⟨_, h, _, _⟩⟩ <;> revert h <;> decide
 -- window before the initial time step but reaching into the horizon: only the set-based later steps
 example : drawScenario (exFlags 0 4) [exSet, exTraj, exStatic] = [[.occ 2, .occ 3], [], [.occ 0]] := by decide
+-- every boundary of the horizon of an obstacle whose prediction starts after a gap: before / at the initial step, in the
+-- gap (3, 4, 5: nothing, although the window reaches into the trajectory), first / last predicted step, after the end
+example : (List.map (fun tb => drawScenario (exFlags tb (tb + 3)) [exGapTraj]) [1, 2, 3, 4, 5, 6, 8, 9])
+    = [[[]], [[.occ 2]], [[]], [[]], [[]], [[.occ 6]], [[.occ 8]], [[]]] := by decide
+example : exGapTraj.pred.isSet = false ∧ exGapTraj.occ.mem 4 = false ∧ exGapTraj.uncInit = false := by decide
 -- window after the horizon: nothing for the dynamic obstacles
 example : drawScenario (exFlags 6 9) [exSet, exTraj, exStatic] = [[], [], [.occ 6]] := by decide
 -- the checked form on a setting with icon, label and state marker: anchors and readings are chosen, nothing fails
